@@ -5,6 +5,7 @@ import (
 	"fmt"
 	"io"
 	"reflect"
+	"sync"
 	"time"
 
 	"diagonal.works/b6"
@@ -26,6 +27,11 @@ type Context struct {
 	FunctionSymbols FunctionSymbols
 	Adaptors        Adaptors
 	Context         context.Context
+	// If set, counts the goroutines started during evaluation that can
+	// outlive it, since collections are filled lazily (see map-parallel).
+	// A caller that guards the world with a lock cancels Context and waits
+	// for them before releasing it.
+	Goroutines *sync.WaitGroup
 
 	VM *VM
 }
